@@ -192,6 +192,9 @@ func runC12(c *Checker) {
 	importLayers(c, "C18")
 	// the mailbox callbacks honour the context gbn gives them (gbn.Close cancels it, then waits)
 	ruleCBCTX(c, "EXIT")
+	// ... and never return holding the per-direction mutex: Close's FIN goes through the same
+	// callback and would wait for that mutex for ever (LOCKBAL, as C05/C11)
+	ruleLOCKBAL(c, targetMbox)
 	ruleHandshakeCtx(c)
 	w := c.w
 	gclose := w.Func("(*gbn.GoBackNConn).Close")
